@@ -43,10 +43,12 @@ JOBS = {
          "quick": {"constants": {"Reps": "{1, 2, 3, 8, 40, 256, 4096}", "MaxSteps": 1}, "timeout": 600},
          "thorough": {"constants": {"Reps": "{1, 2, 3, 8, 40, 256, 4096, 65536}", "MaxSteps": 2}, "timeout": 3000}},
         {"module": "MC_Machine", "spec": "Spec", "invariants": ["InvTotal", "InvDecodeOutcome", "InvOneItem", "InvReencode", "InvFixed", "Emit"],
-         "quick": {"constants": {"MaxDepth": 3}, "timeout": 600}, "thorough": {"constants": {"MaxDepth": 4}, "timeout": 3000}},
+         "quick": {"constants": {"MaxDepth": 3}, "timeout": 600},
+         # depth 4 has > 10^7 states: breadth-first for 20 minutes (all of depth 3, then as much of depth 4 as fits)
+         "thorough": {"constants": {"MaxDepth": 4}, "timeout": 1200, "time_bounded": True}},
         {"module": "MC_Machine", "spec": "Spec", "invariants": ["InvTotal", "InvDecodeOutcome", "InvOneItem", "InvReencode", "InvFixed", "Emit"],
          "thorough_only": True,
-         "thorough": {"constants": {"MaxDepth": 30}, "simulate": 3000, "depth": 30, "timeout": 3000}},
+         "thorough": {"constants": {"MaxDepth": 30}, "simulate": 3000, "depth": 30, "timeout": 1200, "time_bounded": True}},
         {"kind": "cmd", "name": "fuzz", "cmd": ["fuzz", "--prop", "C01", "--seed", "{seed}", "--tier", "{tier}", "--summary", "{summary}",
                                                "--replay-dir", "{replays}"],
          "quick": {"timeout": 600}, "thorough": {"timeout": 3000}},
